@@ -232,18 +232,30 @@ def rfloordiv(a, b):
     if is_conc(a) and is_conc(b):
         return a // b
     if is_int_sorted(a) and is_int_sorted(b):
-        if is_conc(b) and b > 0:
+        if (is_conc(b) and b > 0) or _provably_positive(b):
             return z(a) / z(b)  # z3 int division == floor for positive divisor
-        raise OutsideSubset("integer floor division by a non-constant / non-positive divisor")
+        raise OutsideSubset("integer floor division by a divisor that is not provably positive")
     raise OutsideSubset("floor division of reals")
+
+
+def _provably_positive(b):
+    """symbolic integer divisor: accepted when the current path condition proves it positive"""
+    if is_conc(b):
+        return b > 0
+    from . import engine
+    e = engine.CURRENT
+    try:
+        return e is not None and bool(e.holds(z(b) > 0))
+    except Exception:
+        return False
 
 
 def rmod(a, b):
     if is_conc(a) and is_conc(b):
         return a % b
-    if is_int_sorted(a) and is_int_sorted(b) and is_conc(b) and b > 0:
+    if is_int_sorted(a) and is_int_sorted(b) and ((is_conc(b) and b > 0) or _provably_positive(b)):
         return z(a) % z(b)
-    raise OutsideSubset("modulo outside int % positive constant")
+    raise OutsideSubset("modulo outside int % positive divisor")
 
 
 # ----------------------------------------------------------------------------- booleans
